@@ -8,6 +8,6 @@ Extraction Language OCaml.
 Extraction "model.ml"
   N.add N.mul N.sub N.div N.modulo N.eqb N.ltb N.leb N.of_nat N.to_nat N.land N.shiftl N.shiftr
   alloc_init alloc release count_tag is_live stat_code
-  DEFAULT_LOAD_FACTOR_num DEFAULT_LOAD_FACTOR_den MAX_POW_TWO
+  HASHTABLE_DEFAULT_CAPACITY HASHTABLE_DEFAULT_LOAD_FACTOR_num HASHTABLE_DEFAULT_LOAD_FACTOR_den DEFAULT_LOAD_FACTOR_num DEFAULT_LOAD_FACTOR_den MAX_POW_TWO
   ht_new ht_destroy ht_step ht_run spec_step ht_get ht_contains_key ht_iter_all ht_iter_init ht_iter_next ht_iter_remove
   hs_new hs_destroy hs_step spec_set_step keqn m_get set_mem round_pow_two.
